@@ -12,6 +12,8 @@ from verif.sim import core
 
 PROPERTY = 'C19'
 ENGINE = 'compile-sim + fs-sim'
+ENV_VARIANTS = ['locale-C-ascii']
+ENV_N = 600
 LEVEL = 'exploration'
 QUICK_S = 40
 THOROUGH_S = 420
